@@ -22,6 +22,11 @@ the harness checks this on every generated storage (`collision` / `?path` in the
 location and for the S3 location. Creation and restore must compute the same name: before the D38 repair restore
 ran an `s3://` savepoint URI through `filepath.Dir/Join` and looked under a different key, so every restore from S3
 failed (the `load` observation of the `cfg=s3` cases).
+A copy is a copy of the CONTENT (`copyAll` writes the value read): the destination is independent of later writes
+to the source. For the real `StorageLocation.Copy` implementations (LocalDirectory `cp`, S3 CopyObject) this is tied
+by the roll-back cases of the harness on the real LocalDirectory and the S3 double (a hard link would share the
+inode with `checkpoints/job-<id>.snapshot`, which `Write` rewrites in place). What the job may do to the storage
+after a savepoint is `JobAct`/`jobRun`; `C14.savepoint_survives_job_life` and `C14.savepoint_stays_restorable`.
 File bytes of WAL and table files are opaque tokens: nothing in this code looks inside them.
 -/
 namespace Rxn.Savepoint
